@@ -222,6 +222,9 @@ PROPS["C16"] = {
          "shards": {"quick": 4, "thorough": 16}, "env_tier": {"quick": {"VERIF_C16_BUILDER_MAXLEN": 5}, "thorough": {"VERIF_C16_BUILDER_MAXLEN": 6}}},
         {"name": "C16BuilderConcurrent", "pkg": TR, "test": "TestVerifC16BuilderConcurrent", "kind": "rapid", "race": {"quick": False, "thorough": True},
          "checks": {"quick": 3000, "thorough": 20000}, "shards": {"quick": 2, "thorough": 16}},
+        # the reference client's collector in front of the tracer: trace stored in the call context while the examiner waits (race detector)
+        {"name": "C16WireHandOff", "pkg": RC, "test": "TestVerifC16WireHandOff", "kind": "rapid", "race": {"quick": True, "thorough": True},
+         "checks": {"quick": 1500, "thorough": 20000}, "shards": {"quick": 2, "thorough": 8}, "timeout": {"quick": 900, "thorough": 3600}},
         {"name": "C16RoundTripRace", "pkg": TR, "test": "TestVerifC16RoundTripRace", "kind": "rapid", "race": {"quick": False, "thorough": True},
          "checks": {"quick": 1500, "thorough": 10000}, "shards": {"quick": 2, "thorough": 16}},
     ],
